@@ -88,6 +88,25 @@ def runReuse (t : List String) : String :=
       [sa] ++ b2.calls.map fun cl => match cl.state with | .done _ => "ok" | .timedOut => "timeout" | .waiting => "waiting")
   | _ => "bad-op"
 
+/-- `rqstagger <clones> <outages>`: after each cut every clone's first attempt takes an id and fails on the dead stream
+    (its entry stays in the shared map), the re-issued request takes the next id and is answered: the shared map is
+    never emptied by a reconnection, so each re-issued call gets its own reply (`c04_own_reply`). -/
+def runStagger (t : List String) : String :=
+  match t with
+  | [clones, outages] =>
+    let c := nat! clones
+    let s0 := (List.range c).foldl (fun (s : Rq) _ => (s.call).arrive { reqId := some (s.nextId % U32), payload := [] }) (Rq.run [])
+    let step := fun (acc : Rq × List String) (_ : Nat) =>
+      -- per clone: a failed attempt (no reply will ever carry its id), then the re-issued call
+      let s := (List.range c).foldl (fun (s : Rq) _ => (s.call).call) acc.1
+      let n := s.calls.length
+      let retried := (List.range c).map fun i => n - 2 * c + 2 * i + 1
+      let s := retried.foldl (fun (s : Rq) ci => match s.calls[ci]? with | some cl => s.arrive { reqId := some cl.id, payload := [] } | none => s) s
+      let outs := retried.map fun ci => match (s.calls[ci]?).map (·.state) with | some (.done _) => "ok" | some .timedOut => "timeout" | _ => "waiting"
+      (s, acc.2 ++ outs)
+    ",".intercalate ((List.range (nat! outages)).foldl step (s0, [])).2
+  | _ => "bad-op"
+
 /-- `rqlate <n>`: per round a call that times out, then on the same shared state a second call during which the late
     reply to the first arrives (dropped: `c04_late_reply_dropped`) before its own, then a third. -/
 def runLate (t : List String) : String :=
